@@ -197,11 +197,10 @@ def run(repo, rep):
         rep.check(ok, "C10-d", "ethosu/vela/architecture_features.py:ArchitectureFeatures.get_ifm_block_size", f"duplicate formula for {ax}: (ofm - 1) * stride.{st} + min(subkernel, dilated kernel)",
                   norm(dd[0].value) if dd else "missing")
     rep.floor("C10-d", 4)
-    rep.clause("C10-e", "rolling buffers between cascaded operators: height round_up(producer + consumer stripe, consumer stripe), full producer width, rebuilt for every stripe proposal [rule shared with C03-e]")
+    rep.clause("C10-f", "rolling buffers between cascaded operators: height round_up(producer + consumer stripe, consumer stripe), full producer width, rebuilt for every stripe proposal [rule shared with C03-e]")
     from . import c03
 
-    with rep.borrow({"C03-e": "C10-e"}):
-        c03.run(repo, rep)
+    rep.run_borrowed(c03, {"C03-e": "C10-f"}, repo)
 
     # ---------------------------------------------------------------- e: even stripe heights under nearest-neighbour upscaling
     sch = repo.mod("scheduler")
